@@ -108,6 +108,33 @@ def natural_f2(xs, fs):
     return x
 
 
+def clamped_f2(xs, fs):
+    """second derivatives of the cubic spline with zero slope at both ends (dense solve: the systems are tiny)"""
+    n = len(xs)
+    A = [[0.0] * n for _ in range(n)]
+    d = [0.0] * n
+    h = xs[1] - xs[0]
+    A[0][0], A[0][1], d[0] = h / 3, h / 6, (fs[1] - fs[0]) / h
+    h = xs[-1] - xs[-2]
+    A[-1][-2], A[-1][-1], d[-1] = h / 6, h / 3, -(fs[-1] - fs[-2]) / h
+    for i in range(1, n - 1):
+        h0, h1 = xs[i] - xs[i - 1], xs[i + 1] - xs[i]
+        A[i][i - 1], A[i][i], A[i][i + 1] = h0 / 6, (h0 + h1) / 3, h1 / 6
+        d[i] = (fs[i + 1] - fs[i]) / h1 - (fs[i] - fs[i - 1]) / h0
+    for c in range(n):
+        p = max(range(c, n), key=lambda r: abs(A[r][c]))
+        A[c], A[p], d[c], d[p] = A[p], A[c], d[p], d[c]
+        for r in range(c + 1, n):
+            w = A[r][c] / A[c][c]
+            for k in range(c, n):
+                A[r][k] -= w * A[c][k]
+            d[r] -= w * d[c]
+    x = [0.0] * n
+    for i in range(n - 1, -1, -1):
+        x[i] = (d[i] - sum(A[i][k] * x[k] for k in range(i + 1, n))) / A[i][i]
+    return x
+
+
 def spline_eval(xs, fs, f2, r):
     i = 0
     while i < len(xs) - 2 and r >= xs[i + 1]:
@@ -127,7 +154,10 @@ def gen_fit(rng):
     fmx = round(fmn + (nk - 1) * fst, 6)
     kx = [fmn + i * fst for i in range(n - 1)] + [fmx]          # Spline::GenerateGrid
     ky = [round(rng.uniform(-3, 3), 3) for _ in kx]
-    f2 = natural_f2(kx, ky)
+    # boundary conditions of the fit: natural, or zero slope at both ends (--boundaries derivativezero); the data are sampled from a
+    # spline of the corresponding space
+    bc = rng.choice(["nat", "nat", "dz"])
+    f2 = natural_f2(kx, ky) if bc == "nat" else clamped_f2(kx, ky)
     m = rng.choice([2, 3, 4, 7]) * (len(kx) - 1) + 1
     xs = [round(fmn + (fmx - fmn) * i / (m - 1), 9) for i in range(m)]
     xs[-1] = fmx
@@ -139,7 +169,7 @@ def gen_fit(rng):
         pre = [(round(fmn - 0.3 + 0.1 * i, 6), 50.0 + i) for i in range(3)]
         post = [(round(fmx + 0.1 * (i + 1), 6), -40.0 - i) for i in range(3)]
     ost = rng.choice([fst, fst / 2, fst / 5])
-    return dict(fit=True, kx=kx, ky=ky, fmn=fmn, fmx=fmx, fst=fst, data=pre + list(zip(xs, ys)) + post, omn=fmn, omx=fmx, ost=ost)
+    return dict(fit=True, bc=bc, kx=kx, ky=ky, fmn=fmn, fmx=fmx, fst=fst, data=pre + list(zip(xs, ys)) + post, omn=fmn, omx=fmx, ost=ost)
 
 
 def run_fit(exe, s):
@@ -150,10 +180,12 @@ def run_fit(exe, s):
                 f.write("%r %r i\n" % (x, y))
         cmd = [exe, "--in", "in", "--out", "out", "--grid", "%r:%r:%r" % (s["omn"], s["ost"], s["omx"]),
                "--fitgrid", "%r:%r:%r" % (s["fmn"], s["fst"], s["fmx"]), "--type", "cubic"]
+        if s.get("bc", "nat") == "dz":
+            cmd += ["--boundaries", "derivativezero"]
         r = subprocess.run(cmd, cwd=d, stdout=subprocess.PIPE, stderr=subprocess.PIPE, timeout=600)
         ok = r.returncode == 0 and os.path.exists(os.path.join(d, "out"))
-        line = "C12 resfit %s %d %s %s %s %s %s %s %s" % (s["sid"], len(s["kx"]), " ".join("%s %s" % (me(x), me(y)) for x, y in zip(s["kx"], s["ky"])),
-                                                       me(s["fmn"]), me(s["fmx"]), me(s["fst"]), me(s["omn"]), me(s["omx"]), me(s["ost"]))
+        line = "C12 resfit %s %d %s %s %s %s %s %s %s %s" % (s["sid"], len(s["kx"]), " ".join("%s %s" % (me(x), me(y)) for x, y in zip(s["kx"], s["ky"])),
+                                                          me(s["fmn"]), me(s["fmx"]), me(s["fst"]), me(s["omn"]), me(s["omx"]), me(s["ost"]), s.get("bc", "nat"))
         if not ok:
             return line + " | err 0"
         out = read_table(os.path.join(d, "out"))
